@@ -44,7 +44,8 @@ fn render(rows: &[Row], rng: &mut Rng) -> String {
 }
 
 /// small alphabets with 1-, 2-, 3- and 4-byte characters so that keys share prefixes at byte level too
-const ALPHA: [&str; 14] = ["a", "b", "é", "ä", "あ", "い", "ア", "京", "亰", "東", "𠮟", "𠮷", "\u{10FFFF}", "\u{7f}"];
+// ('#' and '\'' are ordinary key characters for the dictionary but meaningful to some CSV dialects)
+const ALPHA: [&str; 16] = ["a", "#", "b", "é", "ä", "あ", "い", "ア", "'", "京", "亰", "東", "𠮟", "𠮷", "\u{10FFFF}", "\u{7f}"];
 
 fn gen_surface(rng: &mut Rng, existing: &[Row]) -> String {
     let k = rng.below(10);
@@ -70,7 +71,7 @@ fn gen_surface(rng: &mut Rng, existing: &[Row]) -> String {
     let n = 1 + rng.below(4);
     let mut s = String::new();
     // sub-alphabet per key keeps collisions frequent
-    let lo = rng.below(10) as usize;
+    let lo = rng.below(12) as usize;
     for _ in 0..n {
         s.push_str(ALPHA[lo + rng.below(4) as usize]);
     }
@@ -438,7 +439,7 @@ fn gen_case(rng: &mut Rng, layers: usize, shape: u64) -> (Vec<String>, Vec<Strin
 pub fn run(args: &Args) {
     let mut sink = Sink::new("C04", &args.out, &["Model.LexSet"], args.seed, &args.tier);
     sink.shard_size = 12;
-    sink.rule("stacks of 1..15 dictionaries compiled by DictBuilder from generated CSVs (keys over a 14-letter alphabet of 1/2/3/4-byte characters; keys extended/cut from other keys so that keys are prefixes of others; homographs up to 127; keys shared between layers; left_id=-1 rows) x texts concatenated from keys and letters, LexiconSet::lookup at EVERY byte offset (incl. inside characters) x exact-surface MorphemeList::lookup of keys / near-keys; each case also certifies every trie with the verified enumerator; non-trivial = at least 2 entries returned and (a key is a proper prefix of another, or homographs, or more than one layer); distinct by generated Coq term");
+    sink.rule("stacks of 1..15 dictionaries compiled by DictBuilder from generated CSVs (keys over a 16-letter alphabet of 1/2/3/4-byte characters incl. '#' and the apostrophe; keys extended/cut from other keys so that keys are prefixes of others; homographs up to 127; keys shared between layers; left_id=-1 rows) x texts concatenated from keys and letters, LexiconSet::lookup at EVERY byte offset (incl. inside characters) x exact-surface MorphemeList::lookup of keys / near-keys; each case also certifies every trie with the verified enumerator; non-trivial = at least 2 entries returned and (a key is a proper prefix of another, or homographs, or more than one layer); distinct by generated Coq term");
     if let Some(p) = &args.replay {
         let v: Value = serde_json::from_str(&std::fs::read_to_string(p).unwrap()).unwrap();
         let case = &v["case"];
